@@ -5586,13 +5586,10 @@ class PyCdlib:
         if udf_symlink_path is not None and udf_target is not None:
             # If we aren't making a Rock Ridge symlink at the same time, we need
             # to add a new zero-byte file to the ISO.
+            # The Joliet entry, if one was asked for, is added further down.
             if rr_path is None:
-                tmp_joliet_path = joliet_path
-                if tmp_joliet_path is None:
-                    tmp_joliet_path = ''
                 num_bytes_to_add += self._add_fp(None, 0, False, symlink_path,
-                                                 '', tmp_joliet_path, '', None,
-                                                 False)
+                                                 '', '', '', None, False)
 
             udf_symlink_path_bytes = utils.normpath(udf_symlink_path)
 
